@@ -83,8 +83,8 @@ FitStep ==
                                      /\ orc' = IF Mode = "pair" THEN orc \cup {Answer(-1, d, <<>>)} ELSE orc
        /\ UNCHANGED first
 RejectStep ==
-  IF Mode = "pair" /\ \E o \in Known : o.st = 0 /\ o.z # <<>>
-  THEN /\ \E o \in Known : o.st = 0 /\ o.z # <<>> /\ Reject(o.z, SureBeyond(prob, work, o.z), o.bk)
+  IF Mode = "pair" /\ \E o \in Known : o.st = 0
+  THEN /\ \E o \in Known : o.st = 0 /\ Reject(o.z, SureBeyond(prob, work, o.z), o.bk)
        /\ UNCHANGED <<first, orc>>
   ELSE /\ \E z \in ZChoices(work) : /\ Reject(z, SureBeyond(prob, work, z), bk)
                                     /\ orc' = IF Mode = "pair" THEN orc \cup {Answer(0, {}, z)} ELSE orc
